@@ -89,6 +89,7 @@ Fixpoint udedup (l : list ustring) : list ustring :=
 
 (* -------------------------------------------------- registries, type tests *)
 Section World.
+  Variable vr : variant.       (* which of the C02 defect variants the code under test matches *)
   Variable w : world.
   (* oracles: the pattern validator of the stix2patterns package and granular-marking
      selector validation (restated by the C08 model) *)
@@ -188,7 +189,7 @@ Section World.
                        | V21 => Nat.leb n 250
                        end in
          if negb len_ok then Err EDictionaryKey
-         else if negb (re_dict_key k) then Err EDictionaryKey
+         else if negb (re_dict_key (vr_key_z vr) k) then Err EDictionaryKey
          else go r
        end) d.
 
@@ -217,7 +218,7 @@ Section World.
          | Some alg =>
            match hv with
            | JStr s =>
-             if negb (check_hash alg s) then Err EValueError else
+             if negb (check_hash (vr_hash_z vr) alg s) then Err EValueError else
              (* the spec name for this algorithm: the first spec name that infers to it *)
              let spec := find (fun n => match infer_hash n with Some a => ustr_eqb a alg | None => false end) (rev names) in
              let '(name, hc') := match spec with Some n => (n, hc) | None => (k, true) end in
@@ -233,7 +234,7 @@ Section World.
   Definition clean_reference (white : bool) (generics specifics : list ustring) (vv : ver)
              (allow interop : bool) (v : jvalue) : result (pval * bool) :=
     do s <- py_str v;
-    do _ <- validate_id s vv None interop;
+    do _ <- validate_id vr s vv None interop;
     let t := fst (split_dashdash s) in
     let flip := allow && white && (match generics with [] => false | _ => true end) in
     let white' := if flip then false else white in
@@ -302,7 +303,7 @@ Section World.
       if jvalue_eqb v (JStr fv) then Ok (PJ v, false) else Err EValueError
     | KId prefix vv =>
       match v with
-      | JStr s => do _ <- validate_id s vv (Some prefix) interop; Ok (PJ v, false)
+      | JStr s => do _ <- validate_id vr s vv (Some prefix) interop; Ok (PJ v, false)
       | _ => Err EAttributeError
       end
     | KInt mn mx =>
@@ -335,14 +336,14 @@ Section World.
       end
     | KHex =>
       match v with
-      | JStr s => if re_hex_pairs s then Ok (PJ v, false) else Err EValueError
+      | JStr s => if re_hex_pairs (vr_hex_z vr) s then Ok (PJ v, false) else Err EValueError
       | _ => Err ETypeError
       end
     | KRef white generics specifics vv => clean_reference white generics specifics vv allow interop v
     | KSelector =>
       match v with
       | JStr s => if negb (all_ascii s) then Unmodelled
-                  else if re_selector s then Ok (PJ v, false) else Err EValueError
+                  else if re_selector (vr_sel_z vr) s then Ok (PJ v, false) else Err EValueError
       | _ => Err ETypeError
       end
     | KEmbedded cid =>
@@ -403,7 +404,7 @@ Section World.
              end
            | None =>
              if ustr_prefix (u "extension-definition--") key then
-               do _ <- validate_id key vv (Some (u "extension-definition--")) false;
+               do _ <- validate_id vr key vv (Some (u "extension-definition--")) false;
                go r (acc ++ [(key, PJ sub)]) hc
              else if allow then go r (acc ++ [(key, PJ sub)]) true
              else Err ECustomContent
@@ -618,6 +619,7 @@ Section World.
         | Ok _ => Ok tt          (* a nested windows-process-ext was validated by its own constructor *)
         | _ => if negb (amem (u "extensions") inner) then Err EAtLeastOne else Ok tt
         end
+      | CSkipBaseCheck => Ok tt
       | COpaque _ => Unmodelled
       end
     end.
@@ -787,7 +789,8 @@ Section World.
             | _ => false
             end) (cslots c)) in
       (* base _check_object_constraints: granular marking selectors *)
-      do _ <- match alookup (u "granular_markings") setting with
+      do _ <- match (if existsb (fun k => match k with CSkipBaseCheck => true | _ => false end) (ccons c)
+                      then None else alookup (u "granular_markings") setting) with
               | Some (PArr gms) =>
                 (fix go (l : list pval) : result unit :=
                    match l with
@@ -820,6 +823,7 @@ Inductive request :=
 | RParseObs (vv : option ver) (refs : list (ustring * ustring)) (allow interop : bool) (d : list (ustring * jvalue)).
 
 Section Knot.
+  Variable vr : variant.
   Variable w : world.
   Variable pattern_ok : ver -> ustring -> bool.
   Variable selectors_ok : list (ustring * pval) -> pval -> result bool.
@@ -849,7 +853,7 @@ Section Knot.
                             | FSco => Some (match valid_refs0 with Some r => r | None => [] end)
                             | _ => None
                             end in
-          let generic := construct_generic w pattern_ok selectors_ok recc recp reco fuel in
+          let generic := construct_generic vr w pattern_ok selectors_ok recc recp reco fuel in
           do obj <-
             match cinit c with
             | INone | IObservedDataWarn | IBundleObjects => generic c allow interop kwargs0 [] valid_refs
